@@ -43,12 +43,12 @@ type SMOp struct {
 }
 
 type SMCase struct {
-	Synthetic bool `json:"synthetic,omitempty"` // pre-state enumerated, not reached through the API: only model = implementation is checked
-	Pre  SMState `json:"pre"`
-	Op   SMOp    `json:"op"`
-	Res  string  `json:"res"`
-	Err  string  `json:"err,omitempty"`
-	Post SMState `json:"post"`
+	Synthetic bool    `json:"synthetic,omitempty"` // pre-state enumerated, not reached through the API: only model = implementation is checked
+	Pre       SMState `json:"pre"`
+	Op        SMOp    `json:"op"`
+	Res       string  `json:"res"`
+	Err       string  `json:"err,omitempty"`
+	Post      SMState `json:"post"`
 }
 
 func (s SMState) key() string {
